@@ -389,7 +389,7 @@ class UBXReader:
         lenb = message[4:6]
         if lenb == b"\x00\x00":
             payload = None
-            leni = 0
+            leni = len(message[6 : lenm - 2])
         else:
             payload = message[6 : lenm - 2]
             leni = len(payload)
@@ -403,7 +403,7 @@ class UBXReader:
                 raise UBXParseError(
                     (f"Invalid message header {hdr}" f" - should be {UBX_HDR}")
                 )
-            if leni != bytes2val(lenb, U2):
+            if lenm < 8 or leni != bytes2val(lenb, U2):
                 raise UBXParseError(
                     (
                         f"Invalid payload length {lenb}"
